@@ -88,6 +88,75 @@ def expected_seq(seq):
     return out, None, None
 
 
+# positions: what surrounds the foreign call --------------------------------------------------------------------------
+def _optable():
+    from .c18 import opcode_table
+    return opcode_table()
+
+
+def asm(functions):
+    """[(name, [(opname, arg, ...), ...])] -> binary .mmm"""
+    T = _optable()
+    out = b""
+    for name, body in functions:
+        out += b"f " + name.encode() + b"\0"
+        for op, *args in body:
+            out += bytes([T[op]]) + ((b" " + " ".join(args).encode()) if args else b"") + b"\0"
+        out += b"e\0"
+    return out
+
+
+POSITIONS = ["tail-of-entry", "tail-of-helper", "helper-then-store", "map-callback", "filter-callback", "then-pop", "then-store",
+             "helper-called-twice"]
+POS_FUNCS = ["echo", "last", "fail", "nolib", "nosym"]
+SENT = [("void",), ("make_str", "SENTINEL"), ("printn", "*"), ("void",), ("ret_mod",)]
+
+
+def pos_call(func, lib):
+    if func == "nolib":
+        return ("call_lib", lib + ".missing", "echo")
+    if func == "nosym":
+        return ("call_lib", lib, "no_such_symbol")
+    return ("call_lib", lib, func)
+
+
+def pos_program(position, func, lib):
+    """-> (binary, expected stdout lines when the call succeeds).  The foreign call receives [int 7] (callbacks: [element])
+    or, for the filter callback, [bool true]."""
+    c = pos_call(func, lib)
+    val = {"echo": "Str:[int:7]", "last": "Int:7"}.get(func)
+    if position == "tail-of-entry":
+        return asm([("__module__", [("make_int", "7"), c, ("ret",)] + SENT)]), []
+    if position == "tail-of-helper":
+        return asm([("h", [("make_int", "7"), c, ("ret",)]),
+                    ("__module__", [("call", "a.mmm#h"), ("printn", "*")] + SENT)]), [val, "Str:SENTINEL"]
+    if position == "helper-then-store":
+        return asm([("h", [("make_int", "7"), c, ("store", "r"), ("load", "r"), ("ret",)]),
+                    ("__module__", [("call", "a.mmm#h"), ("printn", "*")] + SENT)]), [val, "Str:SENTINEL"]
+    if position == "helper-called-twice":
+        return asm([("h", [("make_int", "7"), c, ("ret",)]),
+                    ("__module__", [("call", "a.mmm#h"), ("printn", "*"), ("void",), ("call", "a.mmm#h"), ("printn", "*")] + SENT)]), \
+            [val, val, "Str:SENTINEL"]
+    if position == "then-pop":
+        return asm([("__module__", [("make_int", "7"), c, ("pop",)] + SENT)]), ["Str:SENTINEL"]
+    if position == "then-store":
+        return asm([("__module__", [("make_int", "7"), c, ("store", "r"), ("load", "r"), ("printn", "*")] + SENT)]), [val, "Str:SENTINEL"]
+    vec = [("make_vector", "2"), ("store_fast", "#0"), ("make_int", "1"), ("vec_op", "+#0"), ("make_int", "2"), ("vec_op", "+#0"),
+           ("delete_name_reference_scoped", "#0"), ("store", "l")]
+
+    def through(method):
+        return [("load", "l"), ("store_fast", "#1"), ("load_fast", "#1"), ("lookup", method), ("store_fast", "#2"),
+                ("make_function", "a.mmm#cb"), ("store_fast", "#3"), ("load_fast", "#3"), ("ld_self", "#1"), ("load_fast", "#2"),
+                ("call",), ("printn", "*")]
+    if position == "map-callback":
+        exp = {"echo": 'Vector:["[int:1]", "[int:2]"]', "last": "Vector:[1, 2]"}.get(func)
+        return asm([("cb", [("arg", "0"), c, ("ret",)]), ("__module__", vec + through("map") + SENT)]), [exp, "Str:SENTINEL"]
+    if position == "filter-callback":
+        exp = "Vector:[1, 2]" if func == "last" else None
+        return asm([("cb", [("make_bool", "true"), c, ("ret",)]), ("__module__", vec + through("filter") + SENT)]), [exp, "Str:SENTINEL"]
+    raise ValueError(position)
+
+
 def rust_str_debug(s):
     return '"' + s.replace("\\", "\\\\").replace('"', '\\"') + '"'
 
@@ -99,7 +168,9 @@ class C19(Check):
     rule = ("all argument vectors of length 0..L over {int,bigint,float,byte,bool,str} (two values per kind at "
             "length <=2, one value per kind above) x probe functions {echo, last, nothing, fail, missing library, "
             "missing symbol, two chained calls}; all sequences of 2 (thorough: 3) foreign calls over {library A, library B with the same "
-            "symbols, missing library} x {echo, last, nothing, fail, missing symbol}; each assembled as a binary .mmm and executed with `mscript execute`. "
+            "symbols, missing library} x {echo, last, nothing, fail, missing symbol}; every call position {last instruction of the entry function, tail of a "
+            "helper function, helper storing the result first, helper called twice, callback of list.map, callback of list.filter, result popped, "
+            "result stored} x {echo, last, fail, missing library, missing symbol}; each assembled as a binary .mmm and executed with `mscript execute`. "
             "Non-trivial = vector length >= 1; distinct = distinct (vector, function).")
     assumptions = ["probe dylib built against /repo/bytecode in the same cargo target dir",
                    "values owning GC memory (lists, objects, functions) are outside the alphabet",
@@ -125,7 +196,8 @@ class C19(Check):
                 for f in FUNCS:
                     yield (vec, f)
         seq2 = [("seq", c) for c in itertools.product(range(len(SEQ_CALLS)), repeat=2)]
-        ls = [("L0-len<=2", list(gen(2))), ("L0b-call-sequences-of-2", seq2), ("L1-len<=4", gen(4, 3))]
+        posl = [("pos", p_, f_) for p_ in POSITIONS for f_ in POS_FUNCS if not (p_ == "filter-callback" and f_ == "echo")]
+        ls = [("L0-len<=2", list(gen(2))), ("L0b-call-sequences-of-2", seq2), ("L0c-call-positions", posl), ("L1-len<=4", gen(4, 3))]
         if L > 4:
             ls.append(("L1b-call-sequences-of-3", [("seq", c) for c in itertools.product(range(len(SEQ_CALLS)), repeat=3)]))
         if L > 4:
@@ -136,6 +208,8 @@ class C19(Check):
     def describe(self, case):
         if case[0] == "seq":
             return {"sequence": [f"{SEQ_CALLS[i][1]}@{SEQ_CALLS[i][0]}" for i in case[1]]}
+        if case[0] == "pos":
+            return {"position": case[1], "function": case[2]}
         vec, f = case
         return {"args": [f"{k}:{VALS[k][i][1]}" for k, i in vec], "function": f}
 
@@ -167,9 +241,38 @@ class C19(Check):
                     bad("message-lost", f"error text does not carry {msg!r}")
         return {"outcome": "seq-ok" if failing is None else "seq-err", "viol": viol, "nontrivial": True, "tags": ["seq"]}
 
+    def run_pos(self, case):
+        _, position, func = case
+        prog, exp = pos_program(position, func, build.PROBE_LIB)
+        d = driver.fresh_dir()
+        driver.write_files(d, {"a.mmm": prog})
+        res = driver.run(["execute", "a.mmm"], d, env={"MSCRIPT_VERIF_TYPED_PRINT": "1"})
+        lines = res.lines()
+        viol = []
+        detail = {"case": self.describe(case), "files": {"a.mmm": prog}, "res": res.brief(), "expected": exp}
+
+        def bad(kind, what):
+            viol.append({"sig": {"kind": kind, "func": func, "position": position}, "what": f"{func} at {position}: {what}", "detail": detail})
+        if func in ("echo", "last"):
+            if res.exit != 0 or lines != exp:
+                bad("wrong-result", f"expected {exp} exit 0, got {lines} exit {res.exit} {res.err[-200:]}")
+        else:
+            msg = {"fail": "probe-raised-error", "nolib": "Could not open FFI Library", "nosym": "Could not find symbol"}[func]
+            if res.exit == 0 or res.cls != "error":
+                bad("fault-not-error", f"expected a run-time error, got {res.cls} (exit {res.exit}) and {lines}")
+            else:
+                if "SENTINEL" in res.out or lines:
+                    bad("ran-on", f"output after / around the failing call: {lines}")
+                if msg not in res.err:
+                    bad("message-lost", f"error text does not carry {msg!r}")
+        return {"outcome": ("pos-ok" if func in ("echo", "last") else "pos-err") + ("-DIFF" if viol else ""), "viol": viol,
+                "nontrivial": True, "tags": ["pos", f"pos-{position}"]}
+
     def run_case(self, case):
         if case[0] == "seq":
             return self.run_seq(case)
+        if case[0] == "pos":
+            return self.run_pos(case)
         vec, func = case
         d = driver.fresh_dir()
         prog = assemble(vec, func, build.PROBE_LIB)
@@ -220,7 +323,7 @@ class C19(Check):
 
     def finish(self, stats, tier):
         errs = []
-        for f in FUNCS + ["seq"]:
+        for f in FUNCS + ["seq", "pos"] + [f"pos-{p_}" for p_ in POSITIONS]:
             if not stats["tags"].get(f):
                 errs.append(f"vacuity: function {f} never exercised")
         return errs
